@@ -13,6 +13,7 @@ import (
 	"fmt"
 	"strings"
 	"testing"
+	"time"
 
 	"github.com/miekg/dns"
 	"pgregory.net/rapid"
@@ -31,8 +32,31 @@ func vc06EchoHandler() Handler {
 			Txt: []string{vc06Digest(vwire.Describe(req, nil))},
 		}}
 
+		if strings.HasPrefix(req.Question[0].Name, "late-") {
+			// A handler that runs out of the request time-out (slow upstream): it
+			// gives up with the context's error, and the server's own SERVFAIL is
+			// then written with a deadline in the past and fails, which takes the
+			// writer's error path.
+			<-ctx.Done()
+
+			return ctx.Err()
+		}
+
 		return rw.WriteMsg(ctx, req, resp)
 	})
+}
+
+// vc06ReqTimeout is the servers' request time-out: long enough for an echo on a
+// loaded machine, short enough to let a few handlers per run wait it out.
+const vc06ReqTimeout = time.Second
+
+// vc06Late is a short valid query whose response write fails in the handler.
+func vc06Late(id uint16, n int) []byte {
+	m := (&dns.Msg{}).SetQuestion("late-"+strings.Repeat("x", n)+".test.", dns.TypeA)
+	m.Id = id
+	b, _ := m.Pack()
+
+	return b
 }
 
 var (
@@ -46,7 +70,7 @@ var (
 func TestVerifC06Sockets(t *testing.T) {
 	st := vstat.New("C06", "dnsserver.udp-tcp-sockets",
 		"rapid (transport UDP/TCP, history of 1-3 valid marker queries, next query (on TCP in half of the cases padded to 0.5-60 KiB, beyond the initial size of the pooled buffer) valid / truncated / inflated counts / pointer beyond the end / trailing bytes / header only) against one long-lived real ServerDNS on loopback whose handler echoes the decoded request; oracle = decode of the query's own bytes + the documented accept rules; non-trivial = query inconsistent; distinct by (transport, query bytes)",
-		"udp", "tcp", "tcp-split-frame", "expect-none", "expect-echo", "kind-pointer", "kind-counts", "kind-truncated", "kind-header-only", "tcp-valid-query-over-512", "tcp-query-over-512")
+		"udp", "tcp", "tcp-split-frame", "expect-none", "expect-echo", "kind-pointer", "kind-counts", "kind-truncated", "kind-header-only", "tcp-valid-query-over-512", "tcp-query-over-512", "after-failed-response-write")
 	st.Finish(t)
 
 	// The server binds UDP to a free port and then TCP to the same number, which
@@ -54,7 +78,7 @@ func TestVerifC06Sockets(t *testing.T) {
 	var srv *ServerDNS
 	var startErr error
 	for i := 0; i < 30; i++ {
-		srv = NewServerDNS(ConfigDNS{ConfigBase: ConfigBase{Name: "verif-c06", Addr: "127.0.0.1:0", Handler: vc06EchoHandler()}})
+		srv = NewServerDNS(ConfigDNS{ConfigBase: ConfigBase{Name: "verif-c06", Addr: "127.0.0.1:0", Handler: vc06EchoHandler(), RequestContext: NewTimeoutContextConstructor(vc06ReqTimeout)}})
 		if startErr = srv.Start(context.Background()); startErr == nil {
 			break
 		}
@@ -72,6 +96,7 @@ func TestVerifC06Sockets(t *testing.T) {
 		var wires [][]byte
 		expectAll := map[uint16]bool{}
 		used := map[uint16]bool{}
+		lateSent := false
 		for i, n := 0, rapid.IntRange(1, 3).Draw(t, "histLen"); i < n; i++ {
 			w, m := vwire.HistoryMsg(t, i)
 			if m.Response || used[m.Id] {
@@ -83,6 +108,19 @@ func TestVerifC06Sockets(t *testing.T) {
 			// most 512 octets, so the long ones are dropped).
 			used[m.Id] = true
 			wires = append(wires, w)
+		}
+
+		// Sometimes the history ends with short queries whose response write
+		// fails (expired handler context).
+		for i, n := 0, rapid.SampledFrom([]int{0, 0, 0, 0, 0, 0, 0, 0, 0, 0, 0, 1, 3}).Draw(t, "lateQueries"); i < n; i++ {
+			id := uint16(rapid.IntRange(0, 65535).Draw(t, "lateID"))
+			if used[id] {
+				continue
+			}
+
+			used[id] = true
+			wires = append(wires, vc06Late(id, rapid.IntRange(0, 12).Draw(t, "lateLen")))
+			lateSent = true
 		}
 
 		base := vwire.BaseMsg(t)
@@ -105,7 +143,23 @@ func TestVerifC06Sockets(t *testing.T) {
 			opt.Option = append(opt.Option, &dns.EDNS0_PADDING{Padding: make([]byte, big)})
 		}
 
+		if !tcp {
+			// UDP queries of different lengths up to the 512 octets the server reads.
+			if pad := rapid.SampledFrom([]int{0, 0, 40, 150, 300, 400}).Draw(t, "udpPad"); pad > 0 {
+				if base.IsEdns0() == nil {
+					base.SetEdns0(1232, false)
+				}
+
+				opt := base.IsEdns0()
+				opt.Option = append(opt.Option, &dns.EDNS0_PADDING{Padding: make([]byte, pad)})
+			}
+		}
+
 		next := vwire.DrawNext(t, base)
+		if !tcp && len(next.Wire) > 512 {
+			next.Wire = next.Wire[:512]
+			next.Kind, next.Inconsistent = "truncated", true
+		}
 		nextID := binary.BigEndian.Uint16(next.Wire)
 		used[nextID] = true
 		sentinel := uint16(1)
@@ -142,10 +196,25 @@ func TestVerifC06Sockets(t *testing.T) {
 				resps, settled, err = vc06Round(true, tcpAddr, [][]byte{next.Wire}, sentinel, sentinel2, expectAll, split)
 			}
 		} else {
-			resps, settled, err = vc06Round(false, udpAddr, append(wires, next.Wire), sentinel, sentinel2, expectAll, 0)
+			if lateSent {
+				// The server sets write deadlines on its one shared UDP socket, so
+				// a write with an expired context can make a concurrent write of
+				// another response fail.  That is not this property's subject:
+				// let the history, with its failing writes, finish first.
+				if _, _, err = vc06Round(false, udpAddr, wires, sentinel, sentinel2, nil, 0); err == nil {
+					time.Sleep(vc06ReqTimeout + 50*time.Millisecond)
+					resps, settled, err = vc06Round(false, udpAddr, [][]byte{next.Wire}, sentinel, sentinel2, expectAll, 0)
+				}
+			} else {
+				resps, settled, err = vc06Round(false, udpAddr, append(wires, next.Wire), sentinel, sentinel2, expectAll, 0)
+			}
 		}
 
 		classes := []string{"kind-" + next.Kind}
+		if lateSent {
+			classes = append(classes, "after-failed-response-write")
+		}
+
 		if tcp {
 			classes = append(classes, "tcp")
 			if split > 0 {
